@@ -25,8 +25,8 @@ CONSTANTS
   TraitsRegs = {"genptr", "mval"}
   GenericPtr = "genptr"
   BasicPtr = "mval"
-  PayTypes = {"tracked", "pod3", "tptr"}
-  WrapTypes = {"tracked", "pod3", "tptr"}
+  PayTypes = {"tracked", "tptr"}
+  WrapTypes = {"tracked", "pod3"}
   Slots = {1, 2}
   Vals = {1}
   PropBuf = 8
